@@ -191,6 +191,36 @@ pub fn c09(args: &Args) {
             }
         }
     }
+    // the same grid once more in a shuffled order, and runs where only the centre / only the width changes between
+    // consecutive calls (state leaking between calls, e.g. a cached 1/sigma or floor(mu), shows up here)
+    {
+        let mut grid: Vec<(f64, f64, f64)> = vec![];
+        for &mu in &mus {
+            for &(sg, smin) in &sigmas {
+                grid.push((mu, sg, smin));
+            }
+        }
+        for i in (1..grid.len()).rev() {
+            let j = rng.gen_range(0..=i);
+            grid.swap(i, j);
+        }
+        for &(mu, sg, smin) in grid.iter().take(if thorough { grid.len() } else { 60 }) {
+            let mut s = vec![0u8; 17 * 40];
+            rng.fill_bytes(&mut s);
+            out.emit(sampler_event(mu, sg, smin, s, "shuffled-grid"));
+        }
+        let (sg, smin) = sigmas[1];
+        for &mu in &mus {
+            let mut s = vec![0u8; 17 * 40];
+            rng.fill_bytes(&mut s);
+            out.emit(sampler_event(mu, sg, smin, s, "only-mu-changes"));
+        }
+        for &(sg, smin) in &sigmas {
+            let mut s = vec![0u8; 17 * 40];
+            rng.fill_bytes(&mut s);
+            out.emit(sampler_event(-8.322564895434937, sg, smin, s, "only-sigma-changes"));
+        }
+    }
     // structured streams: all zero, all 0xFF (never accepts: consumes the whole prefix), periodic, z0 forced to each value
     for &(sg, smin) in &sigmas {
         out.emit(sampler_event(0.3, sg, smin, vec![0u8; 17 * 8], "stream-zero"));
